@@ -130,18 +130,63 @@ class Universe:
             return
         for t in list(self.types.values()):
             t.resolve_refs(self)
-        decls = {}
-        for t in self._adts:
-            decls[t.name] = z3.Datatype(t.name)
-        for t in self._adts:
-            t.declare(decls[t.name], decls)
-        if decls:
-            created = z3.CreateDatatypes(*[decls[t.name] for t in self._adts])
-            for t, s in zip(self._adts, created):
-                t._sort = s
+        # create the datatypes in dependency order, one strongly connected component at a time (a datatype that
+        # occurs under a Seq must already exist; mutually recursive ones are declared together)
+        def deps(t):
+            out = set()
+
+            def walk(x):
+                if isinstance(x, AdtT):
+                    out.add(x.name)
+                elif isinstance(x, (SeqT, SetT)):
+                    walk(x.elem)
+            for c in t.component_types():
+                walk(c)
+            return out
+        graph = {t.name: deps(t) & {a.name for a in self._adts} for t in self._adts}
+        order = _sccs(graph)
+        byname = {t.name: t for t in self._adts}
+        for comp in order:
+            decls = {n: z3.Datatype(n) for n in comp}
+            for n in comp:
+                byname[n].declare(decls[n], decls)
+            created = z3.CreateDatatypes(*[decls[n] for n in comp])
+            for n, srt in zip(comp, created):
+                byname[n]._sort = srt
         self.final = True
         for t in self._adts:
             t.post_create()
+
+
+def _sccs(graph):
+    """Tarjan; returns components in reverse topological order of the condensation (dependencies first)"""
+    index, low, stack, on, res = {}, {}, [], set(), []
+    counter = [0]
+
+    def visit(v):
+        index[v] = low[v] = counter[0]
+        counter[0] += 1
+        stack.append(v)
+        on.add(v)
+        for w in sorted(graph[v]):
+            if w not in index:
+                visit(w)
+                low[v] = min(low[v], low[w])
+            elif w in on:
+                low[v] = min(low[v], index[w])
+        if low[v] == index[v]:
+            comp = []
+            while True:
+                w = stack.pop()
+                on.discard(w)
+                comp.append(w)
+                if w == v:
+                    break
+            res.append(sorted(comp))
+    for v in sorted(graph):
+        if v not in index:
+            visit(v)
+    return res
 
 
 class OpaqueT(Ty):
@@ -167,6 +212,9 @@ def _ref(decls, t):
 
 class AdtT(Ty):
     _sort = None
+
+    def component_types(self):
+        return []
 
     def sort(self):
         assert self._sort is not None, "universe not finalized: %s" % self.name
@@ -216,6 +264,9 @@ class TupleT(AdtT):
     def declare(self, d, decls):
         d.declare("mk_" + self.name, *[("%s_%d" % (self.name, i), _ref(decls, e)) for i, e in enumerate(self.elems)])
 
+    def component_types(self):
+        return self.elems
+
     def mk(self, *terms):
         return getattr(self.sort(), "mk_" + self.name)(*terms)
 
@@ -238,6 +289,9 @@ class RecT(AdtT):
 
     def declare(self, d, decls):
         d.declare("mk_" + self.name, *[("%s__%s" % (self.name, f), _ref(decls, t)) for f, t in self.fields.items()])
+
+    def component_types(self):
+        return list(self.fields.values())
 
     def mk(self, **kw):
         return getattr(self.sort(), "mk_" + self.name)(*[kw[f] for f in self.fields])
@@ -274,6 +328,9 @@ class UnionT(AdtT):
             else:
                 d.declare("%s_%s" % (self.name, tag), ("%s_%s_v" % (self.name, tag), _ref(decls, t)))
 
+    def component_types(self):
+        return [t for t in self.alts.values() if t is not None]
+
     def is_(self, term, tag):
         return getattr(self.sort(), "is_%s_%s" % (self.name, tag))(term)
 
@@ -309,6 +366,9 @@ class ListT(AdtT):
     def declare(self, d, decls):
         d.declare(self.name + "_nil")
         d.declare(self.name + "_cons", (self.name + "_hd", _ref(decls, self.elem)), (self.name + "_tl", decls[self.name]))
+
+    def component_types(self):
+        return [self.elem]
 
     @property
     def nil(self):
@@ -407,6 +467,9 @@ class DictT(AdtT):
         n = self.name
         d.declare(n + "_nil")
         d.declare(n + "_cons", (n + "_k", _ref(decls, self.key)), (n + "_v", _ref(decls, self.val)), (n + "_tl", decls[n]))
+
+    def component_types(self):
+        return [self.key, self.val]
 
     @property
     def nil(self):
